@@ -19,7 +19,8 @@
       BSplines.__init__ derives them.
 
     The model follows the tree with the repairs 6a5dc09 (collocation rows accumulate) and 38b0bf4
-    (integrals of the wrapped periodic basis functions computed, not mirrored). *)
+    (integrals of the wrapped periodic basis functions computed, not mirrored) and 974ae9f (uniform-cubic clamped edge
+    integrals: the cuts are subtracted). *)
 From Coq Require Import List Arith Lia ZArith Bool.
 Import ListNotations.
 From PGV Require Import BasisCoxDeBoor FindSpan CubicUniform CollocRow Sums SplineModel.
@@ -265,6 +266,9 @@ Fixpoint ip_set (k : nat) (v : F) (l : list F) : list F :=
   | a :: r, S k' => a :: ip_set k' v r
   end.
 
+(** l[k] -= v *)
+Definition ip_sub_at (k : nat) (v : F) (l : list F) : list F := ip_set k (nth k l 0 - v) l.
+
 (** the 12 knots linspace(xmin, xmin+11 dx, 12) *)
 Definition ip_knots12 (xmin dx : F) : list F := map (fun k => xmin + sp_ofnat F K k * dx) (seq 0 12).
 
@@ -281,10 +285,12 @@ Definition ip_integrals (knots : list F) (degree : nat) (periodic cubic : bool) 
       let test_pt := xmin + sp_ofnat F K 4 * dx in
       sp_bind (sp_nu_find_span F K k12 4 test_pt) (fun span =>
       sp_bind (sp_nu_basis_funs F K k12 4 test_pt span) (fun values =>
-      let step i := dx * (1 - ip_lsum (firstn (3 - i) values)) in
+      (* integrals[:] = dx; then for i = 0, 1, 2 in this order: step = dx*sum(values[:3-i]);
+         integrals[i] -= step; integrals[-i-1] -= step  (the part of the spline outside the domain is removed at each end;
+         with fewer than 3 cells both cuts hit the same entry - repair 974ae9f) *)
+      let step i := dx * ip_lsum (firstn (3 - i) values) in
       let len := (nc + d)%nat in
-      (* integrals[d:-d] = dx, then integrals[i] = integrals[-i-1] = step_i for i = 0, 1, 2 in this order *)
-      let w i l := ip_set (len - 1 - i) (step i) (ip_set i (step i) l) in
+      let w i l := ip_sub_at (len - 1 - i) (step i) (ip_sub_at i (step i) l) in
       SpOk (w 2%nat (w 1%nat (w 0%nat (repeat dx len)))))))
   else
     let kx := sp_kn F K knots 0 :: knots ++ [last knots 0] in
